@@ -6,6 +6,7 @@ package explore
 import (
 	"encoding/json"
 	"fmt"
+	"os"
 	"regexp"
 	"sort"
 	"strings"
@@ -130,7 +131,7 @@ func CrashSite(stack string) string {
 }
 
 func (e *explorer) run(s Schedule) *vrt.Result {
-	return vrt.Run(s.dense(), vrt.Options{MaxSteps: e.cfg.MaxSteps}, e.body)
+	return vrt.Run(s.dense(), vrt.Options{MaxSteps: e.cfg.MaxSteps, Trace: os.Getenv("VERIF_NONDET_DIR") != ""}, e.body)
 }
 
 // failuresOf turns one execution result into (fingerprint, clause, detail) triples.
@@ -212,6 +213,14 @@ func (e *explorer) evaluate(s Schedule, r *vrt.Result) {
 			// cut by the step / memory guard: not comparable
 		} else if r2.Hash != r.Hash || r2.Outcome != r.Outcome || len(r2.Points) != len(r.Points) {
 			e.engineError(fmt.Sprintf("nondeterministic replay of schedule %v: hash %x vs %x, outcome %q vs %q", s, r.Hash, r2.Hash, r.Outcome, r2.Outcome))
+			if dir := os.Getenv("VERIF_NONDET_DIR"); dir != "" {
+				// development aid: traces of further runs of the schedule in this process
+				os.WriteFile(fmt.Sprintf("%s/nondet-%d-first.txt", dir, st.Executions), []byte(fmt.Sprintf("hash %x\n", r.Hash)+strings.Join(r.Log, "\n")), 0o644)
+				for i := 0; i < 3; i++ {
+					rr := vrt.Run(s.dense(), vrt.Options{MaxSteps: e.cfg.MaxSteps, Trace: true}, e.body)
+					os.WriteFile(fmt.Sprintf("%s/nondet-%d-%d.txt", dir, st.Executions, i), []byte(fmt.Sprintf("hash %x\n", rr.Hash)+strings.Join(rr.Log, "\n")), 0o644)
+				}
+			}
 		} else {
 			st.Validated++
 		}
